@@ -276,7 +276,7 @@ func genC12(c *Ctx) {
 		}
 		r := &SM64{c.seed ^ 0xc12}
 		odd := []string{"A-1.0", "a-1.0+", "X.Y", "Z--", "0", "with-exception", "Q-only", "Q-or-later", "MIT", "mit-0",
-			"CC-BY-100%-Free", "P%s", "%d-1.0", "Escaped-%%-twice", "trailing%", "%v", strings.Repeat("Long-Identifier-", 5) + "1.0"}
+			"AND-1.0", "WITH-exception", "OR", "and", "a\"b", "a\\b", "x`y", "CC-BY-100%-Free", "P%s", "%d-1.0", "Escaped-%%-twice", "trailing%", "%v", strings.Repeat("Long-Identifier-", 5) + "1.0"}
 		for k := 0; k < nsyn; k++ {
 			var sl, se []jl
 			n := 4 + r.Intn(12)
@@ -901,6 +901,30 @@ var families = []family{
 		return rep("GPL-3.0-or-later", " AND ", n), a
 	}},
 	// repeated identical sub-expressions, invalid tails, runs of one byte
+	{"many_short_entries", func(n int) (string, []string) {
+		a := make([]string, n*20)
+		for i := range a {
+			a[i] = []string{"MIT", "ISC", "Zlib", "0BSD", "X11", "curl", "Vim"}[i%7]
+		}
+		return "MIT AND ISC", a
+	}},
+	{"long_names_list", func(n int) (string, []string) {
+		a := make([]string, n)
+		for i := range a {
+			a[i] = "LicenseRef-" + strings.Repeat("long-name.", 20) + strconv.Itoa((i*7919)%n)
+		}
+		return a[0] + " OR MIT", a
+	}},
+	{"many_distinct_terms", func(n int) (string, []string) {
+		p := make([]string, n)
+		for i := range p {
+			p[i] = "LicenseRef-" + strings.Repeat("t", 30) + strconv.Itoa(i)
+		}
+		return strings.Join(p, " OR "), []string{"MIT"}
+	}},
+	{"nested_invalid", func(n int) (string, []string) {
+		return strings.Repeat("(MIT AND ", n) + "FOO" + strings.Repeat(")", n), []string{"MIT"}
+	}},
 	{"repeated_group", func(n int) (string, []string) { return rep("(MIT AND (ISC OR Zlib))", " OR ", n), []string{"Zlib"} }},
 	{"twin_groups", func(n int) (string, []string) {
 		return rep("(MIT OR ISC AND Zlib) AND (MIT AND ISC OR Zlib)", " AND ", n/2+1), []string{"MIT", "Zlib"}
